@@ -402,9 +402,14 @@ def _index_case(rng):
     labels, lfams = _axis_labels(rng, kind, _pick_n(rng))
     keyfn = _gen_keyfn(rng, lfams, 'hier' if kind.startswith('hier') else 'flat',
                        p_none=0.0 if lfams[0] == 'Ox' else (0.3 if len(lfams) == 1 else 0.45), n=len(labels))
-    return {'op': 'index.sort', 'ikind': kind, 'labels': labels, 'ascending': rng.random() < 0.5,
+    go = rng.random() < 0.3
+    case = {'op': 'index.sort', 'ikind': kind, 'labels': labels, 'ascending': rng.random() < 0.5,
             'kind': rng.choice([None] * 8 + ['mergesort', 'stable']), 'keyfn': keyfn, 'iname': rng.choice(_INAMES),
-            'go': rng.random() < 0.25}
+            'go': go}
+    if go and kind in _GROWABLE and len(labels) >= 2 and rng.random() < 0.6:
+        # the grow-only index is built from a prefix and grown label by label, and sorted before anything reads it
+        case['grown'] = rng.randint(1, len(labels) - 1)
+    return case
 
 
 def _other_columns(rng, n, count, dtypes=None):
@@ -549,6 +554,16 @@ def _frame_values_axis0(rng):
             'cls': rng.choice(['Frame', 'Frame', 'Frame', 'FrameGO', 'FrameHE'])}
 
 
+_GROWABLE = ('auto', 'int', 'str', 'negint', 'IndexDate')
+
+
+def _maybe_grown(rng, case):
+    spec = case['spec']
+    if case['op'] == 'frame.sort_columns' and case['cls'] == 'FrameGO' and spec.col_kind in _GROWABLE and len(spec.cols) >= 2 and rng.random() < 0.7:
+        case['grown'] = rng.randint(1, len(spec.cols) - 1)
+    return case
+
+
 def generate(ctx):
     rng = ctx.rng
     per_spec = 2 if ctx.tier == 'quick' else 3
@@ -564,7 +579,7 @@ def generate(ctx):
             if r < 0.55:
                 case = _frame_index_case(rng, 'frame.sort_index')
             elif r < 0.66:
-                case = _frame_index_case(rng, 'frame.sort_columns')
+                case = _maybe_grown(rng, _frame_index_case(rng, 'frame.sort_columns'))
             elif r < 0.86:
                 case = _frame_values_axis1(rng)
             else:
@@ -871,6 +886,13 @@ def _check_index(case, ctx):
     hier = kind.startswith('hier')
     idx = L.build_index(kind, labels, name=case['iname'], go=case['go'])
     in_snap = canon.snap(idx)
+    if case.get('grown'):
+        # the snapshot above was read from a twin; the index that is sorted has only been built and grown, never read
+        k = case['grown']
+        idx = L.build_index(kind, labels[:k], name=case['iname'], go=True)
+        for lab in labels[k:]:
+            idx.append(lab)
+        ctx.tally('workload', 'index_grown_unread')
     klass = {'op': 'index.sort', 'axis': 1, 'cls': type(idx).__name__, 'index_kind': kind}
     ctx.tally('op', 'index.sort/hier' if hier else 'index.sort/flat')
     ctx.tally('class', type(idx).__name__)
@@ -898,6 +920,14 @@ def _check_frame(case, ctx):
     spec, op, lay = case['spec'], case['op'], case['layout']
     f = _build_frame(spec, lay, case['cls'], case['names'])
     in_snap = canon.snap(f)
+    if case.get('grown'):
+        # same content, but the columns beyond the first k are added one at a time and nothing reads the frame before the sort
+        k = case['grown']
+        pre = F.FrameSpec(spec.rows, spec.cols[:k], spec.row_kind, spec.col_kind, spec.dtypes[:k], [r[:k] for r in spec.cells], spec.name)
+        f = _build_frame(pre, F.layout_all_1d(pre.dtypes), 'FrameGO', case['names'])
+        for j in range(k, len(spec.cols)):
+            f[spec.cols[j] if spec.col_kind != 'auto' else j] = spec.col_array(j)
+        ctx.tally('workload', 'frame_columns_grown_unread')
     nr, nc = spec.shape
     rows = spec.rows if spec.row_kind != 'auto' else list(range(nr))
     cols = spec.cols if spec.col_kind != 'auto' else list(range(nc))
